@@ -302,17 +302,21 @@ def compare(pid, stage, ops, impl, model):
         out.append({"op": crashed, "impl": "(process died while executing this op)", "model": model[n] if n < len(model) else ""})
     sessioned = stage.get("sessions", False)
     diverged = False
+    cur_session = None
+    import re as _re
     for o, a, b in zip(ops, impl, model):
         if not o:
             continue
         if sessioned and " reset" in o[:16]:
             diverged = False
+            m = _re.search(r"session=(\d+)", o)
+            cur_session = int(m.group(1)) if m else None
         if a == b or diverged:
             continue
         if sessioned:
             diverged = True
             if differs(pid, a, b):
-                out.append({"op": o, "impl": a, "model": b, "session_op": True})
+                out.append({"op": o, "impl": a, "model": b, "session_op": True, "session": cur_session, "stage": stage["name"]})
             else:
                 other += 1
         else:
